@@ -18,6 +18,29 @@ CONTEXT_WAIVERS = {
 }
 
 
+def _clamped_or_eof(repo: Repo, fi, val: ast.AST | None, depth: int = 2) -> bool:
+    """max(0, .), the EOF sentinel, or a call of a repository function all of whose returns are (a helper that computes the count)."""
+    if isinstance(val, ast.Call) and isinstance(val.func, ast.Name) and val.func.id == "max" and len(val.args) == 2 and \
+            any(is_const(a) and const_value(a) == 0 for a in val.args):
+        return True
+    if isinstance(val, ast.Name) and val.id == "EOF":
+        return True
+    if depth and isinstance(val, ast.Call):
+        nm = call_name(val)
+        callee = fi.module.functions.get(nm or "") or (fi.module.functions.get(f"{fi.cls.name}.{nm}") if fi.cls is not None else None)
+        if callee is not None:
+            rets = [r for r in walk_body(callee.node.body) if isinstance(r, ast.Return)]
+            if rets:
+                def ret_ok(r: ast.Return) -> bool:
+                    v = r.value
+                    if isinstance(v, ast.Name) and v.id != "EOF":
+                        defs = [s_.value for s_ in walk_body(callee.node.body) if isinstance(s_, ast.Assign) and any(isinstance(t, ast.Name) and t.id == v.id for t in s_.targets)]
+                        return bool(defs) and all(_clamped_or_eof(repo, callee, d_, depth - 1) for d_ in defs)
+                    return _clamped_or_eof(repo, callee, v, depth - 1)
+                return all(ret_ok(r) for r in rets)
+    return False
+
+
 def clamp_rule(repo: Repo, rep: Report, rid: str) -> None:
     rep.rule(rid, "the element count handed to _read_array is max(0, .) or the EOF sentinel on every path")
     fi = repo.func("types/base.py", "BaseArray._read")
@@ -40,12 +63,7 @@ def clamp_rule(repo: Repo, rep: Report, rid: str) -> None:
         for nid, val in defs:
             k += 1
             key = f"{fi.key}:{cnt.id} = {short(val, 50)}"
-            ok = False
-            if isinstance(val, ast.Call) and isinstance(val.func, ast.Name) and val.func.id == "max" and len(val.args) == 2 and \
-                    any(is_const(a) and const_value(a) == 0 for a in val.args):
-                ok = True
-            elif isinstance(val, ast.Name) and val.id == "EOF":
-                ok = True
+            ok = _clamped_or_eof(repo, fi, val)
             rep.check(ok, rid, key, "max(0, .) or EOF", f"a count defined as '{short(val, 50)}' reaches _read_array: a negative length must yield an "
                       f"empty array (max(0, n)), only the EOF sentinel may be negative", fi.loc(g.nodes[nid].ast))
     rep.floor(rid, "definitions of the count reaching _read_array", k, 3)
